@@ -118,6 +118,19 @@ func c04JoinAccept(c *engine.Case, class string, j jaValue, jt byte, joinEUI [8]
 		c.Fail(class+"/validate-accepts-wrong-mic", fmt.Sprintf("Validate=%v err=%v with MIC bit %d flipped; %s", ok, err, bit, desc()), nil)
 	}
 	p.MIC[bit/8] ^= 1 << uint(bit%8)
+	// the MIC of the other form (1.0 form on an OptNeg frame and vice versa), under the same
+	// key, is not this frame's MIC: it must be rejected whenever the two differ
+	other := spec.JoinMIC(key, mhdr, payload)
+	if !optNeg {
+		other = spec.JoinAcceptMIC11(key, jt, joinEUI, devNonce, mhdr, payload)
+	}
+	if other != want {
+		q := p
+		q.MIC = lorawan.MIC(other)
+		if ok, err := q.ValidateDownlinkJoinMIC(lorawan.JoinType(jt), lorawan.EUI64(joinEUI), lorawan.DevNonce(devNonce), keyOf(key)); err != nil || ok {
+			c.Fail(fmt.Sprintf("%s/validate-accepts-other-form-mic/optneg=%v", class, optNeg), fmt.Sprintf("Validate=%v err=%v for the MIC %x of the other form (this frame's is %x); %s", ok, err, other[:], want[:], desc()), nil)
+		}
+	}
 
 	// plain wire form of the payload
 	if b, err := p.MACPayload.MarshalBinary(); err != nil || !bytes.Equal(b, payload) {
@@ -233,6 +246,19 @@ func runC04(r *engine.Run) {
 		wantWire := append(append([]byte{mhdr}, payload...), want[:]...)
 		if err != nil || !bytes.Equal(wire, wantWire) {
 			c.Fail(class+"/wire", fmt.Sprintf("frame %x (err %v), specification %x", wire, err, wantWire), nil)
+		}
+		// the receiver's side: the specification's frame, decoded from the wire, validates and
+		// recomputes the same MIC
+		var rx lorawan.PHYPayload
+		if err := rx.UnmarshalBinary(append([]byte(nil), wantWire...)); err != nil {
+			c.Fail(class+"/received-frame-not-decodable", fmt.Sprintf("frame %x: %v", wantWire, err), nil)
+		} else {
+			if ok, err := rx.ValidateUplinkJoinMIC(keyOf(key)); err != nil || !ok {
+				c.Fail(fmt.Sprintf("%s/received-frame-rejected/type%d", class, typ), fmt.Sprintf("frame %x decoded from the wire: Validate=%v err=%v with the key it was signed with", wantWire, ok, err), nil)
+			}
+			if err := rx.SetUplinkJoinMIC(keyOf(key)); err != nil || [4]byte(rx.MIC) != want {
+				c.Fail(fmt.Sprintf("%s/received-frame-mic-differs/type%d", class, typ), fmt.Sprintf("frame %x decoded from the wire: recomputed MIC %x (err %v), specification %x", wantWire, rx.MIC[:], err, want[:]), nil)
+			}
 		}
 		c.Outcome(fmt.Sprintf("uplink/type%d", typ))
 	}
